@@ -37,6 +37,65 @@ BLACK_METHODS = {'lower', 'upper', 'casefold', 'strip', 'lstrip', 'rstrip',
                  'replace', 'title', 'swapcase', 'capitalize', 'partition',
                  'rpartition', 'rsplit', 'translate', 'removeprefix',
                  'removesuffix'}
+BLACK_FUNCS = {'unquote', 'unquote_plus', 'unquote_to_bytes', 'normalize',
+               'sub', 'subn', 'url_unquote', 'unescape'}
+
+
+def black_ops(value):
+    """Blacklisted (name-changing) operations inside an expression."""
+    black = []
+    for x in ast.walk(value):
+        if isinstance(x, ast.Call) and isinstance(x.func, ast.Attribute) \
+                and x.func.attr in BLACK_METHODS:
+            black.append('.%s()' % x.func.attr)
+        if isinstance(x, ast.Call) and call_name(x) in BLACK_FUNCS and \
+                x.args:
+            black.append('%s()' % call_name(x))
+        if isinstance(x, ast.Call) and isinstance(x.func, ast.Attribute) \
+                and x.func.attr in ('decode', 'encode'):
+            err = None
+            if len(x.args) >= 2:
+                err = x.args[1]
+            for k in x.keywords:
+                if k.arg == 'errors':
+                    err = k.value
+            if err is not None and not (isinstance(err, ast.Constant) and
+                                        err.value == 'strict'):
+                black.append('.%s(errors=%s)' % (x.func.attr, unparse(err)))
+        if isinstance(x, ast.Subscript) and isinstance(x.slice, ast.Slice):
+            black.append('slice')
+        if isinstance(x, ast.Call) and isinstance(
+                x.func, ast.Attribute) and x.func.attr == 'split':
+            a = unparse(x.args[0]) if x.args else ''
+            if a not in ("'/'", '"/"', 'self.SLASH'):
+                black.append('.split(%s)' % a)
+    return black
+
+
+def backward_slice(fnode, value):
+    """Values of the local assignments the expression depends on
+    (transitively), the expression itself first."""
+    out = [value]
+    names = {x.id for x in ast.walk(value) if isinstance(x, ast.Name)}
+    seen = set()
+    changed = True
+    while changed:
+        changed = False
+        for n in walk_no_defs(fnode):
+            if isinstance(n, ast.Assign) and id(n) not in seen:
+                tg = {t.id for tt in n.targets for t in ast.walk(tt)
+                      if isinstance(t, ast.Name)}
+                if tg & names:
+                    seen.add(id(n))
+                    out.append(n.value)
+                    new = {x.id for x in ast.walk(n.value)
+                           if isinstance(x, ast.Name)}
+                    if not new <= names:
+                        names |= new
+                    changed = True
+    return out
+
+
 BLACK_PREDICATES = {'startswith', 'endswith', 'search', 'match', 'findall',
                     'fullmatch'}
 
@@ -198,19 +257,8 @@ def rule_r1(prog, res, tier):
             where = '%s:%d' % (rel, n.lineno)
             v = n.value
             black = []
-            for x in ast.walk(v):
-                if isinstance(x, ast.Call) and isinstance(
-                        x.func, ast.Attribute) and \
-                        x.func.attr in BLACK_METHODS:
-                    black.append('.%s()' % x.func.attr)
-                if isinstance(x, ast.Subscript) and isinstance(
-                        x.slice, ast.Slice):
-                    black.append('slice')
-                if isinstance(x, ast.Call) and isinstance(
-                        x.func, ast.Attribute) and x.func.attr == 'split':
-                    a = unparse(x.args[0]) if x.args else ''
-                    if a not in ("'/'", '"/"', 'self.SLASH'):
-                        black.append('.split(%s)' % a)
+            for vv in backward_slice(f.node, v):
+                black.extend(black_ops(vv))
             inst = '%s: method_request_string = %s' % (f.qualname,
                                                        unparse(v)[:60])
             if black and core:
@@ -533,11 +581,74 @@ def rule_r4(prog, res):
                     'process_method')
 
 
+# ------------------------------------------------------------------- R5
+SERVICE_ACCESSORS = ('get_service_name', 'get_service_class_name',
+                     'get_service_module', 'get_service_key')
+
+
+def _accessors(fnode):
+    out = set()
+    for n in ast.walk(fnode):
+        if isinstance(n, ast.Call) and call_name(n) in SERVICE_ACCESSORS:
+            out.add(call_name(n))
+        if isinstance(n, ast.Attribute) and n.attr in (
+                '__name__', '__service_name__'):
+            out.add(n.attr)
+    return out
+
+
+def rule_r5(prog, res):
+    res.rule('R5', 'the uniqueness check and the routing table identify a '
+             'service by the same name accessor')
+    svc = prog.cls('spyne.service:ServiceBaseBase')
+    md = prog.cls('spyne.descriptor:MethodDescriptor')
+    ik = svc.methods.get('get_internal_key')
+    on = md.methods.get('get_owner_name')
+    gk = md.methods.get('gen_interface_key')
+    if ik is None or on is None or gk is None:
+        raise AnalysisError('C11-R5', 'get_internal_key / get_owner_name / '
+                            'gen_interface_key not found')
+    # the uniqueness key really is built from get_internal_key
+    ikp = md.methods.get('internal_key')
+    uses = ikp is not None and any(call_name(c) == 'get_internal_key'
+                                   for c in calls_in(ikp.node))
+    a_int = _accessors(ik.node) - {'get_service_module'}
+    a_itf = set()
+    if any(call_name(c) == 'get_owner_name' for c in calls_in(gk.node)):
+        a_itf = _accessors(on.node)
+    a_itf |= _accessors(gk.node) - {'__name__'} if False else set()
+    # the Service branch of get_owner_name
+    svc_names = set()
+    for r in walk_no_defs(on.node):
+        if isinstance(r, ast.Return):
+            g = flatten_guards(guards_at(r, stop=on.node))
+            if any(pol and 'issubclass' in unparse(e) for e, pol in g):
+                svc_names |= _accessors(r)
+    ok = uses and bool(svc_names) and svc_names <= a_int
+    res.ob('R5', ik.where, 'uniqueness key names the service through %s; '
+           'interface key through %s' % (sorted(a_int), sorted(svc_names)),
+           'ok' if ok else 'VIOLATED', nontrivial=True)
+    res.floor('R5', 'service-name accessors on the interface side',
+              len(svc_names), 1)
+    if not ok:
+        res.finding('R5', 'ServiceBaseBase.get_internal_key|accessor|%s' %
+                    sorted(a_int), ik.where,
+                    'Application.check_unique_method_keys compares keys '
+                    'built from %s while Interface.process_method keys '
+                    'methods through %s: two service classes published '
+                    'under one service name with a same-named method pass '
+                    'the uniqueness check, and the second is silently '
+                    'dropped by process_method, so the function that runs '
+                    'depends on the order of the services list' % (
+                        sorted(a_int), sorted(svc_names)))
+
+
 def run(prog, res, tier):
     res.run_rule(rule_r1, prog, res, tier)
     res.run_rule(rule_r2, prog, res)
     res.run_rule(rule_r3, prog, res)
     res.run_rule(rule_r4, prog, res)
+    res.run_rule(rule_r5, prog, res)
 
 
 _P = 'spyne/protocol/_base.py'
@@ -548,6 +659,28 @@ _W = 'spyne/server/wsgi.py'
 _X = 'spyne/protocol/xml.py'
 
 MUTANTS = [
+    Mutant('internal-key-by-class-name', 'R5', 'fire', 'spyne/service.py',
+           in_func('ServiceBaseBase.get_internal_key',
+                   "cls.get_service_name()", "cls.get_service_class_name()"),
+           'accessor'),
+    Mutant('internal-key-format-changed', 'R5', 'benign', 'spyne/service.py',
+           in_func('ServiceBaseBase.get_internal_key',
+                   '"%s.%s" % (cls.get_service_module(), '
+                   'cls.get_service_name())',
+                   '"{}.{}".format(cls.get_service_module(), '
+                   'cls.get_service_name())'), None),
+    Mutant('path-name-unquoted', 'R1', 'fire', _W,
+           in_func('WsgiApplication.decompose_incoming_envelope',
+                   "wsgi_env['PATH_INFO'].split('/')[-1])",
+                   "unquote(wsgi_env['PATH_INFO'].split('/')[-1]))"),
+           'unquote'),
+    Mutant('msgpack-name-lossy-decode', 'R1', 'fire',
+           'spyne/protocol/msgpack.py',
+           in_func('MessagePackRpc.decompose_incoming_envelope',
+                   r"msgname_or_error\.decode\(\s*self\."
+                   r"default_string_encoding\)",
+                   "msgname_or_error.decode(self.default_string_encoding, "
+                   "'ignore')", regex=True), 'decode(errors'),
     Mutant('case-insensitive-routing', 'R1', 'fire', _P,
            in_func('ProtocolMixin.get_call_handles',
                    "name = ctx.method_request_string",
